@@ -31,6 +31,7 @@ type Describer struct {
 	memo     map[ssa.Value]string
 	memoIn   map[ssa.Value]string // memo for values described inside call arguments
 	inCall   int
+	under    *Reach // when set, φ-nodes only merge the edges that are reachable in this walk
 	busy     map[ssa.Value]bool
 	allocIdx map[*ssa.Alloc]int
 	maxDepth int
@@ -41,6 +42,13 @@ func NewDescriber(p *Prog) *Describer {
 }
 
 func (d *Describer) D(v ssa.Value) string { return d.desc(v, 0) }
+
+// DUnder renders the origin of v restricted to a walk: φ-nodes merge only the
+// incoming edges that the walk may take ("the value of v when σ holds").
+func (d *Describer) DUnder(v ssa.Value, reach *Reach) string {
+	sub := &Describer{p: d.p, memo: map[ssa.Value]string{}, memoIn: map[ssa.Value]string{}, busy: map[ssa.Value]bool{}, allocIdx: d.allocIdx, maxDepth: d.maxDepth, under: reach}
+	return sub.desc(v, 0)
+}
 
 func constString(c *ssa.Const) string {
 	if c.Value == nil {
@@ -189,6 +197,32 @@ func paramSpill(a *ssa.Alloc) *ssa.Parameter {
 	return p
 }
 
+// arraySpill recognises "h := f(); use(h[:])": an array-typed local that is
+// stored once as a whole and otherwise only sliced or loaded.
+func arraySpill(a *ssa.Alloc) ssa.Value {
+	if _, ok := a.Type().(*types.Pointer).Elem().Underlying().(*types.Array); !ok {
+		return nil
+	}
+	var sv ssa.Value
+	for _, r := range *a.Referrers() {
+		switch r := r.(type) {
+		case *ssa.Store:
+			if r.Addr != a || sv != nil {
+				return nil
+			}
+			sv = r.Val
+		case *ssa.Slice, *ssa.DebugRef:
+		case *ssa.UnOp:
+			if r.Op != token.MUL {
+				return nil
+			}
+		default:
+			return nil
+		}
+	}
+	return sv
+}
+
 func calleeName(c *ssa.CallCommon) string {
 	if c.IsInvoke() {
 		return "iface(" + TypeName(c.Value.Type()) + ")." + c.Method.Name()
@@ -275,6 +309,9 @@ func (d *Describer) desc1(v ssa.Value, depth int) string {
 	case *ssa.Alloc:
 		if p := paramSpill(v); p != nil {
 			return "&(" + r(p) + ")"
+		}
+		if sv := arraySpill(v); sv != nil {
+			return "&(" + r(sv) + ")"
 		}
 		return d.allocName(v)
 	case *ssa.FieldAddr:
@@ -375,8 +412,14 @@ func (d *Describer) desc1(v ssa.Value, depth int) string {
 			return fmt.Sprintf("it@%d", v.Block().Index)
 		}
 		set := map[string]bool{}
-		for _, e := range v.Edges {
+		for i, e := range v.Edges {
+			if d.under != nil && !d.under.Edges[[2]int{v.Block().Preds[i].Index, v.Block().Index}] {
+				continue
+			}
 			set[r(e)] = true
+		}
+		if len(set) == 0 {
+			return "⊥"
 		}
 		var parts []string
 		for s := range set {
